@@ -239,6 +239,10 @@ func vfNewCluster(t *testing.T, opt *option.Options) cluster.Cluster {
 }
 
 func vfOptions(t *testing.T, dir, name, role string, peerURL string) *option.Options {
+	return vfOptionsTimeout(t, dir, name, role, peerURL, "10s")
+}
+
+func vfOptionsTimeout(t *testing.T, dir, name, role string, peerURL string, requestTimeout string) *option.Options {
 	ports, err := vfPorts(3)
 	if err != nil {
 		t.Fatalf("VF-INCONCLUSIVE no free ports: %v", err)
@@ -247,7 +251,7 @@ func vfOptions(t *testing.T, dir, name, role string, peerURL string) *option.Opt
 	opt.Name = name
 	opt.ClusterName = "vf-cluster"
 	opt.ClusterRole = role
-	opt.ClusterRequestTimeout = "10s"
+	opt.ClusterRequestTimeout = requestTimeout
 	if role == "primary" {
 		cu := fmt.Sprintf("http://127.0.0.1:%d", ports[0])
 		pu := fmt.Sprintf("http://127.0.0.1:%d", ports[1])
@@ -314,6 +318,12 @@ func vfStartAPIBed(t *testing.T) *vfAPIBed {
 	scls := vfNewCluster(t, sopt)
 	oopt := vfOptions(t, dir, "vf-observer", "secondary", peer)
 	ocls := vfNewCluster(t, oopt)
+	// a third API member whose cluster-request-timeout (2s) is shorter than the long holds of the
+	// observer: its requests really time out on the cluster lock
+	topt := vfOptionsTimeout(t, dir, "vf-short", "secondary", peer, vfShortTimeout.String())
+	tcls := vfNewCluster(t, topt)
+	tsuper := supervisor.MustNew(topt, tcls)
+	tserver := MustNewServer(topt, tcls, tsuper, nil)
 	// the secondary's Server first, the primary's last: the global API registry then belongs to
 	// the primary, whose real dynamic mux is used
 	ssuper := supervisor.MustNew(sopt, scls)
@@ -324,6 +334,7 @@ func vfStartAPIBed(t *testing.T) *vfAPIBed {
 	b.members = []*vfAPIMember{
 		{name: "primary", opt: popt, cls: pcls, super: psuper, server: pserver, handler: pserver.router},
 		{name: "secondary", opt: sopt, cls: scls, super: ssuper, server: sserver, handler: vfOwnRouter(sserver)},
+		{name: "short-timeout", opt: topt, cls: tcls, super: tsuper, server: tserver, handler: vfOwnRouter(tserver)},
 	}
 	// The change signal of the global API registry is consumed by whichever dynamic mux reads it
 	// first (there is one mux per process in production); with two Servers in this process the
@@ -337,13 +348,15 @@ func vfStartAPIBed(t *testing.T) *vfAPIBed {
 	}
 	t.Cleanup(func() {
 		wg := &sync.WaitGroup{}
-		wg.Add(2)
+		wg.Add(3)
 		go pserver.Close(wg)
 		go sserver.Close(wg)
+		go tserver.Close(wg)
 		wg.Wait()
 		psuper.Close(nil2wg())
 		ssuper.Close(nil2wg())
-		for _, c := range []cluster.Cluster{ocls, scls, pcls} {
+		tsuper.Close(nil2wg())
+		for _, c := range []cluster.Cluster{ocls, tcls, scls, pcls} {
 			w := &sync.WaitGroup{}
 			w.Add(1)
 			c.Close(w)
@@ -432,6 +445,13 @@ func vfDo(m *vfAPIMember, rq vfReq, clock *int64, client int) vfResp {
 	return out
 }
 
+// request timeout of the third API member and how long the observer holds the lock in a
+// long-hold phase (longer than that timeout, with a wide margin for the queued requests)
+const (
+	vfShortTimeout = 2 * time.Second
+	vfLongHold     = 2600 * time.Millisecond
+)
+
 var vfNames = []string{"vfobj-a", "vfobj-b", "vfobj-c"}
 
 // every name is a proper prefix of the following ones (or shares one with them)
@@ -441,6 +461,10 @@ type vfRound struct {
 	Seed    []vfReq   // sequential creates before the round
 	Clients [][]vfReq // concurrent scripts
 	HoldMs  int       // observer hold
+	// long-hold phase (before the concurrent part): the observer member holds the lock for
+	// vfLongHold; R[0] is sent to the short-timeout member at once (=> 503 after its 2s timeout),
+	// R[1] 150 ms later (queued behind R[0] inside that member), R[2:] when R[0] has answered
+	LongHold []vfReq
 }
 
 func (r *vfRound) String() string {
@@ -450,8 +474,13 @@ func (r *vfRound) String() string {
 		fmt.Fprintf(&sb, "client %d: %v\n", i, c)
 	}
 	fmt.Fprintf(&sb, "observer hold: %dms\n", r.HoldMs)
+	if len(r.LongHold) > 0 {
+		fmt.Fprintf(&sb, "long-hold phase (observer holds %v, member 2 has request timeout %v): %v\n", vfLongHold, vfShortTimeout, r.LongHold)
+	}
 	return sb.String()
 }
+
+var vfRoundNo int
 
 func vfGenRound(rt *rapid.T) *vfRound {
 	r := &vfRound{}
@@ -483,11 +512,47 @@ func vfGenRound(rt *rapid.T) *vfRound {
 	for _, sd := range r.Seed {
 		usual[sd.Name] = sd.Kind
 	}
+	// mutating requests generated so far: an update may re-apply one of them unchanged
+	applied := append([]vfReq{}, r.Seed...)
+	genMut := func(member int, label string) vfReq {
+		rq := vfReq{Member: member, Op: rapid.SampledFrom([]string{"update", "update", "create", "delete"}).Draw(rt, label+"op"),
+			Name: rapid.SampledFrom(names).Draw(rt, label+"name")}
+		if rq.Op != "delete" {
+			rq.Kind = usual[rq.Name]
+			rq.Note = note()
+		}
+		return rq
+	}
+	// every fifth round has a long-hold phase (a fixed share, not a draw: the phase costs ~3 s, and
+	// rapid's per-run bias would make it anything between 0 and 40% of the rounds); when a fail file
+	// is replayed the drawn flag takes over
+	vfRoundNo++
+	if rapid.Bool().Draw(rt, "longHoldOnReplay") && vfRoundNo == 1 || vfRoundNo%5 == 3 {
+		n := rapid.IntRange(3, 5).Draw(rt, "nLongHold")
+		for i := 0; i < n; i++ {
+			rq := genMut(2, "lh.")
+			r.LongHold = append(r.LongHold, rq)
+			if rq.Op != "delete" {
+				applied = append(applied, rq)
+			}
+		}
+	}
 	nc := rapid.IntRange(2, 8).Draw(rt, "nClients")
 	for c := 0; c < nc; c++ {
 		var script []vfReq
 		nr := rapid.IntRange(1, 5).Draw(rt, "nReq")
 		for i := 0; i < nr; i++ {
+			if len(applied) > 0 && rapid.IntRange(0, 3).Draw(rt, "reapply") == 0 {
+				// re-apply an unchanged manifest: the very same spec as an earlier create/update
+				// (often the one stored right now); still a successful update with its own version
+				src := rapid.SampledFrom(applied).Draw(rt, "reapplySrc")
+				rq := vfReq{Member: rapid.IntRange(0, 1).Draw(rt, "member"), Op: "update", Name: src.Name, Kind: src.Kind, Note: src.Note}
+				script = append(script, rq)
+				if rapid.Bool().Draw(rt, "reapplyTwice") {
+					script = append(script, rq)
+				}
+				continue
+			}
 			rq := vfReq{
 				Member: rapid.IntRange(0, 1).Draw(rt, "member"),
 				Op: rapid.SampledFrom([]string{"update", "update", "update", "update", "create", "create", "delete", "get", "list",
@@ -505,6 +570,9 @@ func vfGenRound(rt *rapid.T) *vfRound {
 					}
 				}
 				rq.Note = note()
+				if rq.Op != "update-badname" {
+					applied = append(applied, rq)
+				}
 			}
 			script = append(script, rq)
 		}
@@ -611,6 +679,73 @@ func TestVerifC18API(t *testing.T) {
 			obsHolds int
 			obsSeen  []vfObsSample
 		)
+		// ---- long-hold phase: a member of the cluster holds the lock for longer than the request
+		// timeout of the short-timeout API member
+		type vfHold struct{ acq, rel int64 }
+		var holds []vfHold
+		if len(round.LongHold) > 0 {
+			if err := obsMutex.Lock(); err != nil {
+				rt.Fatalf("VF-INCONCLUSIVE observer Lock: %v", err)
+			}
+			h := vfHold{acq: atomic.AddInt64(&clock, 1)}
+			t0 := time.Now()
+			var lwg sync.WaitGroup
+			send := func(rq vfReq, done chan struct{}) {
+				lwg.Add(1)
+				go func() {
+					defer lwg.Done()
+					rs := vfDo(bed.members[rq.Member], rq, &clock, -2)
+					mu.Lock()
+					all = append(all, rs)
+					mu.Unlock()
+					if done != nil {
+						close(done)
+					}
+				}()
+			}
+			first := make(chan struct{})
+			send(round.LongHold[0], first)
+			time.Sleep(150 * time.Millisecond)
+			send(round.LongHold[1], nil)
+			select {
+			case <-first:
+			case <-time.After(vfLongHold - 300*time.Millisecond):
+			}
+			for _, rq := range round.LongHold[2:] {
+				send(rq, nil)
+			}
+			if d := vfLongHold - time.Since(t0); d > 0 {
+				time.Sleep(d)
+			}
+			h.rel = atomic.AddInt64(&clock, 1)
+			uerr := obsMutex.Unlock()
+			holds = append(holds, h)
+			joined := make(chan struct{})
+			go func() { lwg.Wait(); close(joined) }()
+			select {
+			case <-joined:
+			case <-time.After(5 * time.Minute):
+				rt.Fatalf("VF-INCONCLUSIVE long-hold requests still blocked after 5 minutes\n%s", round)
+			}
+			if uerr != nil {
+				rt.Fatalf("VF-INCONCLUSIVE observer Unlock: %v", uerr)
+			}
+			vf.Class("long-hold-phase")
+		}
+		// a 503 is explained (and must have changed nothing) when another member verifiably held the
+		// cluster lock during the whole request: the request timed out on the lock
+		lockTimeout := func(r vfResp) bool {
+			if r.status != http.StatusServiceUnavailable {
+				return false
+			}
+			for _, h := range holds {
+				if h.acq < r.inv && r.resp < h.rel {
+					return true
+				}
+			}
+			return false
+		}
+
 		stop := make(chan struct{})
 		var owg sync.WaitGroup
 		owg.Add(1)
@@ -742,8 +877,21 @@ func TestVerifC18API(t *testing.T) {
 		// does not leave the mutex free, every later request then answers 503 after 10 s.
 		trouble := obsErr
 		for _, r := range all {
+			if lockTimeout(r) {
+				vf.Class("503-lock-timeout-while-another-member-held-the-lock")
+				continue
+			}
 			if r.status >= 500 && trouble == "" {
 				trouble = fmt.Sprintf("%s answered %d: %s", r.req, r.status, strings.TrimSpace(r.body))
+			}
+		}
+		// nothing succeeds inside another member's hold
+		for _, r := range all {
+			for _, h := range holds {
+				if r.success() && h.acq < r.inv && r.resp < h.rel {
+					vf.Violation(rt, "mutation-inside-another-members-critical-section", "%s began and succeeded while the observer member held %s for %v\n%s", r, lockKey, vfLongHold, history())
+					return
+				}
 			}
 		}
 		lockKeys, lerr := pcls.GetPrefix(lockKey + "/")
@@ -833,6 +981,9 @@ func TestVerifC18API(t *testing.T) {
 					vf.Violation(rt, "update-succeeded-with-another-kind", "in version order, %s changed the kind of %s\n%s", r, vfModelStr(cur), history())
 					return
 				}
+				if o == (vfObj{r.req.Kind, r.req.Note}) {
+					vf.Class("identical-update-succeeded-with-its-own-version")
+				}
 				next[r.req.Name] = vfObj{r.req.Kind, r.req.Note}
 			case "delete":
 				if !exists {
@@ -871,7 +1022,7 @@ func TestVerifC18API(t *testing.T) {
 		}
 		// every other answer is explained by a state compatible with its real-time interval
 		for _, r := range all {
-			if r.success() {
+			if r.success() || lockTimeout(r) {
 				continue
 			}
 			lo, hi := v0, v0+k
